@@ -31,7 +31,7 @@
 
    Data structures of Model/Accounting.v (slices, pending entries, queue elements, the read functions)
    are reused.  [fx], [gx] as there: fx = linkedBuffer.recycle() also cleans the pinned list; gx = the write
-   operations refuse to allocate for a closed stream. *)
+   side takes no shared memory for a closed stream. *)
 From Coq Require Import List ZArith Bool Arith.
 From Shm Require Import Gen.Consts Model.Accounting.
 Import ListNotations.
@@ -171,8 +171,8 @@ Definition sock_close (e : bool) (sid : nat) (s : cst) : cst :=
 (* ---- user: write / flush ---- *)
 Definition c_write (o : nat) (new : list Z) (heap : bool) (s : cst) : option cst :=
   let v := objs s o in
-  (* the owner of a closed stream (its close() has returned): with gx the write operations return
-     ErrStreamClosed; without it they allocate into the send buffer that clean() has already left behind *)
+  (* the owner of a closed stream (its close() has returned): with gx its writes take heap slices (no slot
+     moves); without it they allocate into the send buffer that clean() has already left behind *)
   let after_close := valid o s && oclosed v && Nat.eqb (ocpc v) 6 in
   if after_close && cgx s then Some s
   else if negb (usable o s || after_close) then None
